@@ -30,19 +30,21 @@ import c17_lib as L
 
 PROP = 'C17'
 INF = 999
-BASE_CONST = {'DefMutant': '"none"', 'PullMutant': '"none"', 'BuildMutant': '"none"'}
+BASE_CONST = {'DefMutant': '"none"', 'PullMutant': '"none"', 'BuildMutant': '"none"', 'Slim': 'FALSE'}
 
 TIERS = {
     'quick': dict(
         cases=dict(MaxStages=3, Horizon=16, KMax=6, Wide='FALSE', MaxDerive=1),
         laws=dict(MaxStages=2, Horizon=16, KMax=6, Wide='FALSE', MaxDerive=1),
         pull=dict(MaxStages=2, Horizon=16, KMax=6, Wide='FALSE', MaxDerive=1),
-        pulldump=dict(MaxStages=1, Horizon=16, KMax=6, Wide='TRUE', MaxDerive=1),
+        cases2=dict(MaxStages=1, Horizon=16, KMax=6, Wide='TRUE', MaxDerive=1),
+        pulldump=dict(MaxStages=1, Horizon=16, KMax=6, Wide='TRUE', MaxDerive=1, Slim='TRUE'),
         build=dict(MaxStages=1, Horizon=16, KMax=6, Wide='FALSE', MaxDerive=3),
         rows=1600, chunk=200),
     'thorough': dict(
         cases=dict(MaxStages=4, Horizon=16, KMax=6, Wide='FALSE', MaxDerive=1),
-        cases2=dict(MaxStages=2, Horizon=12, KMax=6, Wide='TRUE', MaxDerive=1),
+        cases2=dict(MaxStages=1, Horizon=20, KMax=6, Wide='TRUE', MaxDerive=1),
+        cases3=dict(MaxStages=2, Horizon=12, KMax=6, Wide='TRUE', MaxDerive=1, Slim='TRUE'),
         laws=dict(MaxStages=3, Horizon=16, KMax=6, Wide='FALSE', MaxDerive=1),
         pull=dict(MaxStages=2, Horizon=24, KMax=6, Wide='FALSE', MaxDerive=1),
         pull2=dict(MaxStages=1, Horizon=24, KMax=6, Wide='TRUE', MaxDerive=1),
@@ -168,13 +170,14 @@ def check_def_case(st, out):
     for st_ in pipe:
         out['kinds'][st_['kind']] = out['kinds'].get(st_['kind'], 0) + 1
     alt_sp = (len(pipe) + len(srcd['items'])) % 2 == 1
+    sub = len(pipe) % 2 == 0            # lists / tuples of the source represented by subclass instances
     spec = L.build_iter(pipe, alt_sp)
     base = dict(kind='def', pipe=pipe, srcd=srcd, kmax=kmax, horizon=horizon, pred=small_pred(pred))
 
     def bad(clause, detail, **kw):
         out['bad'].append(dict(why='%s: %s' % (clause, detail), case=dict(base, clause=clause, **kw)))
 
-    obs = L.run_iter(spec, srcd, kmax, horizon, bind_in_spec=not alt_sp)
+    obs = L.run_iter(spec, srcd, kmax, horizon, bind_in_spec=not alt_sp, sub=sub)
     out['n'] += 1
     clause, detail, drift = judge_iter(pred, obs, kmax)
     if drift:
@@ -192,12 +195,37 @@ def check_def_case(st, out):
     for kind, i, t in terms:
         if not (t['det'] and t['demLA'] != INF):
             continue
-        r = L.run_terminal(terminal_spec(spec, kind, t), srcd, horizon, bind_in_spec=alt_sp)
+        tspec = terminal_spec(spec, kind, t)
+        r = L.run_terminal(tspec, srcd, horizon, bind_in_spec=alt_sp, sub=sub)
         out['n'] += 1
         res = judge_terminal(kind, t, pred['xs'], r)
         if res:
             robs = dict(exc=r['exc'], budget=r['budget'], pulled=r['pulled'], v=L.enc(r['v']))
             bad(res[0], res[1], call=kind if kind == 'all' else 'first(%s, default=%s)' % (t['p'], L.dec(t['d'])), obs=robs)
+        elif kind == 'all' and srcd['kind'] == 'fin':
+            # the SAME spec object evaluated again after its first result was mutated, on the same data held
+            # by an ordinary iterable (list / tuple / list subclass overriding __iter__ / falsy list subclass
+            # holding the data / generator), items represented the other way
+            mutate(r['v'])
+            tk = L.TARGET_KINDS[(len(pipe) + len(srcd['items']) + pred['n']) % len(L.TARGET_KINDS)]
+            r2 = L.run_terminal(tspec, srcd, horizon, bind_in_spec=not alt_sp, sub=not sub, target=tk)
+            out['n'] += 1
+            res = judge_terminal(kind, dict(t, demLA=INF), pred['xs'], r2)
+            if res:
+                bad('reuse', 'second evaluation of the same spec object (after the first result was mutated, target held '
+                    'by a %s): %s' % (tk, res[1]), call='all twice', target=tk,
+                    obs=dict(exc=r2['exc'], v=L.enc(r2['v'])))
+
+
+def mutate(v):
+    """append to a returned list and to every list inside it"""
+    if type(v) is list:
+        for x in list(v):
+            mutate(x)
+        v.append(99)
+    elif isinstance(v, tuple):
+        for x in v:
+            mutate(x)
 
 
 def terminal_spec(spec, kind, t):
@@ -286,7 +314,11 @@ def behaviour(obj, cls):
         res = []
         for p in PROBES:
             try:
-                res.append([L.enc(x) for x in glom(list(p), obj.all())])
+                first = glom(list(p), obj.all())
+                e1 = [L.enc(x) for x in first]
+                mutate(first)                               # the first result is mutated ...
+                e2 = [L.enc(x) for x in glom(tuple(p), obj.all())]      # ... and the same spec object evaluated again
+                res.append(e1 if e1 == e2 else 'unstable: %s then %s' % (e1, e2))
             except Exception as e:
                 res.append('exc:' + type(e).__name__)
         return res
@@ -369,10 +401,13 @@ def S(kind, f='', a=0, b=0, c=0, v=None):
     return dict(kind=kind, f=f, a=a, b=b, c=c, v=V(v))
 
 
-def rand_stage(rng, depth):
+def rand_stage(rng, depth, n=5):
     """-> (stage, new nesting depth); depth = how many list levels the items have (type-directed so
     that most pipelines are well-typed; ~8% are left to chance)"""
     wild = rng.random() < 0.08
+
+    def size(lo, hi):            # a size parameter: small, or at the boundary of the source length n
+        return max(lo, rng.choice([n - 1, n, n + 1])) if rng.random() < 0.3 else rng.randint(lo, hi)
     kinds = ['map', 'filter', 'slice', 'limit', 'takewhile', 'dropwhile', 'chunked', 'windowed', 'split', 'unique', 'flatten']
     while True:
         k = rng.choice(kinds)
@@ -391,19 +426,19 @@ def rand_stage(rng, depth):
         return S('filter', rng.choice(['T', 'lt2', 'odd', 'lt2_check', 'lt2_spec', 'lt2_tup', 'lt2_S', 'even', 'notnone']
                                       + (['item0_T', 'isempty', 'cnt0_T'] if nested else []))), depth
     if k == 'slice':
-        start = rng.randint(0, 3)
+        start = size(0, 3)
         stop = rng.choice([-1, -1, start, start + 1, start + 2, start + 4, 6])
         return S('slice', 'slice', start, stop, rng.randint(1, 3)), depth
     if k == 'limit':
-        return S('slice', rng.choice(['limit', 'limit', 'slice1']), 0, rng.randint(0, 5), 1), depth
+        return S('slice', rng.choice(['limit', 'limit', 'slice1']), 0, size(0, 5), 1), depth
     if k in ('takewhile', 'dropwhile'):
         return S(k, rng.choice(['T', 'lt2', 'odd', 'lt2_tup', 'lt2_spec', 'lt2_S', 'odd_spec', 'notnone']
                                + (['item0_T', 'item0_str', 'cnt0_T', 'item0'] if nested else []))), depth
     if k == 'chunked':
         fill = rng.choice(['no', None, 0])
-        return S('chunked', '', rng.randint(1, 4), 0 if fill == 'no' else 1, 0, None if fill == 'no' else fill), depth + 1
+        return S('chunked', '', size(1, 4), 0 if fill == 'no' else 1, 0, None if fill == 'no' else fill), depth + 1
     if k == 'windowed':
-        return S('windowed', '', rng.randint(1, 4)), depth + 1
+        return S('windowed', '', min(size(1, 4), 9)), depth + 1
     if k == 'split':
         mode = rng.choice(['none', 'none', 'scalar', 'set', 'fn'] if depth == 0 or wild else ['none', 'scalar', 'fn'])
         # (a scalar separator None *is* the grouping mode, so scalar separators are ints)
@@ -417,20 +452,21 @@ def rand_stage(rng, depth):
 
 def rand_source(rng):
     r = rng.random()
-    atoms = [0, 1, 2, 3, 4, None, 1, 2] + ([L.WILD, L.NULL, 1] if rng.random() < 0.25 else [])
+    atoms = [0, 1, 2, 3, 4, None, 1, 2] + ([L.WILD, L.NULL, 1] if rng.random() < 0.25 else []) \
+        + ([False, True, 0] if rng.random() < 0.3 else [])
     if r < 0.2:
         return dict(kind='count', items=[]), 0
     if r < 0.35:
         return dict(kind='cyc', items=[V(rng.choice(atoms)) for _ in range(rng.randint(1, 5))]), 0
     if r < 0.5:
-        items = [rng.choice([list, list, tuple])(rng.choice(atoms) for _ in range(rng.randint(0, 3)))
+        items = [rng.choice([list, list, tuple, L.FalsyList])(rng.choice(atoms) for _ in range(rng.randint(0, 3)))
                  for _ in range(rng.randint(0, 6))]
         return dict(kind='fin', items=[V(x) for x in items]), 1
     return dict(kind='fin', items=[V(rng.choice(atoms)) for _ in range(rng.randint(0, 12))]), 0
 
 
 # the (key, default) pairs of first() the specification predicts for every case (GlomStream!FirstVariants)
-FIRST_VARIANTS = [('T', None), ('notnone', 7), ('even', 9), ('isempty', 7), ('item0_T', 7), ('lt2_S', 7)]
+FIRST_VARIANTS = [('T', None), ('notnone', 7), ('even', []), ('isempty', 0), ('item0_T', 7), ('lt2_S', 7)]
 
 
 def rand_row(rng, horizon=24):
@@ -441,7 +477,7 @@ def rand_row(rng, horizon=24):
     pipe = [dict(kind='base', f=sub, a=0, b=1 if given else 0, c=0, v=V(sent))]
     depth = depth + 1 if sub == 'dup' else 0 if sub in ('item0_T', 'cnt0_T') else depth
     for _ in range(rng.randint(0, 6)):
-        st, depth = rand_stage(rng, depth)
+        st, depth = rand_stage(rng, depth, len(srcd['items']) if srcd['kind'] == 'fin' else 5)
         pipe.append(st)
     return dict(pipe=pipe, srcd=srcd, kmax=rng.randint(0, 10), horizon=horizon)
 
@@ -453,7 +489,8 @@ def record_rows(n, seed):
         row = rand_row(rng)
         spec = L.build_iter(row['pipe'], alt_spelling=rng.random() < 0.5)
         bind = rng.random() < 0.5          # scope bound by S(..) earlier in the spec / passed with scope=
-        obs = L.run_iter(spec, row['srcd'], row['kmax'], row['horizon'], want_ev=True, bind_in_spec=bind)
+        sub = rng.random() < 0.5           # lists / tuples of the source as subclass instances
+        obs = L.run_iter(spec, row['srcd'], row['kmax'], row['horizon'], want_ev=True, bind_in_spec=bind, sub=sub)
         if not obs['exc'] and not obs['pulled']:
             dropped += 1        # undetermined already at glom() (budget)
             continue
@@ -467,7 +504,7 @@ def record_rows(n, seed):
         if choice >= 1 and not obs['exc']:
             kind = 'first' if choice <= len(FIRST_VARIANTS) else 'all'
             t = dict(p=FIRST_VARIANTS[choice - 1][0], d=V(FIRST_VARIANTS[choice - 1][1])) if kind == 'first' else {}
-            r = L.run_terminal(terminal_spec(spec, kind, t), row['srcd'], row['horizon'], bind_in_spec=not bind)
+            r = L.run_terminal(terminal_spec(spec, kind, t), row['srcd'], row['horizon'], bind_in_spec=not bind, sub=not sub)
             if not r['exc']:
                 v = V(None) if r['budget'] else V(r['v'])
                 term = dict(kind=kind, idx=choice if kind == 'first' else 0, v=v, pulled=r['pulled'], budget=r['budget'])
@@ -536,6 +573,8 @@ def spec_mutants(check):
             ('MC_C17_pull', dict(PullMutant='"sepfn_ignored"', Wide='TRUE', MaxStages=1), 'pull:sepfn_ignored (callable separator never separates)'),
             ('MC_C17_pull', dict(PullMutant='"skey_unscoped"', Wide='TRUE', MaxStages=1), 'pull:skey_unscoped (a key reading S is not evaluated in the running scope)'),
             ('MC_C17_pull', dict(PullMutant='"filter_ne"', Wide='TRUE', MaxStages=1), 'pull:filter_ne (filter lets the item\'s own != decide)'),
+            ('MC_C17_pull', dict(PullMutant='"unique_identity"', Wide='TRUE', MaxStages=1), 'pull:unique_identity (unique keeps 1 and True apart)'),
+            ('MC_C17_pull', dict(PullMutant='"flatten_skips_falsy"', Wide='TRUE', MaxStages=1), 'pull:flatten_skips_falsy (a falsy container holding data is skipped)'),
             ('MC_C17_pull', dict(PullMutant='"reverse"'), 'pull:reverse'),
             ('MC_C17_pull', dict(PullMutant='"takewhile_drain"'), 'pull:takewhile_drain'),
             ('MC_C17_build', dict(BuildMutant='"inplace"'), 'build:inplace'),
@@ -565,6 +604,8 @@ def main(tier, seed):
             Dump('MC_C17_build', consts(cfgd['build']), 2, 'build', coverage=(tier == 'thorough'))]
     if 'cases2' in cfgd:
         jobs.append(Dump('MC_C17_cases', consts(cfgd['cases2']), 6, 'cases-wide'))
+    if 'cases3' in cfgd:
+        jobs.append(Dump('MC_C17_cases', consts(cfgd['cases3']), 6, 'cases-wide-deep'))
     rows, dropped = record_rows(cfgd['rows'], seed)
     bad_rows = corrupted_rows()
     cover = tier == 'thorough'
@@ -618,6 +659,8 @@ def main(tier, seed):
                    'build': build_worker}
         if 'cases2' in cfgd:
             workers['cases-wide'] = make_def_worker(cfgd['cases2']['Horizon'])
+        if 'cases3' in cfgd:
+            workers['cases-wide-deep'] = make_def_worker(cfgd['cases3']['Horizon'])
         stats = {}
         for j in jobs:
             results = process_dump(j, workers[j.label], keep='/\\ phase = 2' if j.label == 'pull' else None)
